@@ -31,6 +31,8 @@ theorem late_step (s : St) (m : Mem) (hm : s.mem = some m) (hl : LateOk s m) (hu
   | idle => simp [hpc, PC.late] at hlate
   | firstInit => simp [hpc, PC.late] at hlate
   | errReset => simp [hpc, PC.late] at hlate
+  | errForget => simp [hpc, PC.late] at hlate
+  | seedSave => simp [hpc, PC.late] at hlate
   | errSave => simp [hpc, PC.late] at hlate
   | walkItem k =>
     cases k <;> simp [stepUp, hpc, LateOk, PC.late, hst]
@@ -144,13 +146,14 @@ theorem doAll_accepted (s : St) (m : Mem) (c : Int) (hinv : Inv s) (hm : s.mem =
   exact ⟨m', h1, h2, h3, h4, h5, h6, h7, h8, h9, h10⟩
 
 
-/-- `doAll` on an engine that starts without a cursor: the provider's position is persisted, and (with a
-    root) the walk runs before anything else -/
+/-- `doAll` on an engine that starts without a cursor: the stored walk marker is dropped (if a walk is needed),
+    then the provider's position is persisted, and (with a root) the walk runs before anything else -/
 theorem doAll_seed (s : St) (m : Mem) (hinv : Inv s) (hm : s.mem = some m) (hval : m.validated = true)
     (hidle : m.pc = .idle) (hst : m.stopping = false) (hfd : m.firstDo = true) (hc : m.cursor = none)
     (P : St → Prop)
     (hP : ∀ s m, s.mem = some m → LateOk s m → Inv s → P s → P (stepUp s m))
-    (hP0 : P { s with store := { s.store with cursor := some (.int s.prov.cur) },
+    (hP0 : P { s with store := { cursor := some (.int s.prov.cur),
+                                 walked := s.store.walked && !(m.needWalk && m.rootOid), log := s.store.log },
                       mem := some { m with cursor := some (.int s.prov.cur), firstDo := false,
                                            pc := afterInit { m with firstDo := false } s.prov },
                       ghost := { s.ghost with seed := s.prov.cur, walkDue := true, base := s.prov.cur } }) :
@@ -163,20 +166,31 @@ theorem doAll_seed (s : St) (m : Mem) (hinv : Inv s) (hm : s.mem = some m) (hval
   have hinv1 : Inv (apply s .callDo) := inv_apply s .callDo hinv
   have hni : (apply s .callDo).pcIdle = false := by simp [hs1, St.pcIdle]
   have hμ := measure_step _ hni
-  obtain ⟨k, hk⟩ : ∃ k, measure (apply s .callDo) = k + 1 := ⟨measure (apply s .callDo) - 1, by omega⟩
   have hinv2 : Inv (apply (apply s .callDo) .step) := inv_apply _ .step hinv1
   have hs2 : apply (apply s .callDo) .step =
-      { s with store := { s.store with cursor := some (.int s.prov.cur) },
+      { s with store := { s.store with walked := s.store.walked && !(m.needWalk && m.rootOid) },
+               mem := some { m with cursor := some (.int s.prov.cur), pc := .seedSave },
+               ghost := { s.ghost with seed := s.prov.cur } } := by
+    rw [hs1]
+    simp [apply, stepUp, hfd, hc]
+  have hni2 : (apply (apply s .callDo) .step).pcIdle = false := by simp [hs2, St.pcIdle]
+  have hμ2 := measure_step _ hni2
+  have hinv3 : Inv (apply (apply (apply s .callDo) .step) .step) := inv_apply _ .step hinv2
+  have hs3 : apply (apply (apply s .callDo) .step) .step =
+      { s with store := { cursor := some (.int s.prov.cur),
+                          walked := s.store.walked && !(m.needWalk && m.rootOid), log := s.store.log },
                mem := some { m with cursor := some (.int s.prov.cur), firstDo := false,
                                     pc := afterInit { m with firstDo := false } s.prov },
                ghost := { s.ghost with seed := s.prov.cur, walkDue := true, base := s.prov.cur } } := by
-    rw [hs1]
-    simp [apply, stepUp, hfd, hc, afterInit]
+    rw [hs2]
+    simp [apply, stepUp, afterInit]
+  obtain ⟨k, hk⟩ : ∃ k, measure (apply s .callDo) = k + 2 := ⟨measure (apply s .callDo) - 2, by omega⟩
   simp only [doAll]
-  rw [hk, finish_succ k _ hni]
-  rw [hs2] at hinv2 hμ ⊢
+  rw [hk, finish_succ (k+1) _ hni, finish_succ k _ hni2]
+  rw [hs3] at hinv3 hμ2 ⊢
   have hl : LateOk
-      { s with store := { s.store with cursor := some (.int s.prov.cur) },
+      { s with store := { cursor := some (.int s.prov.cur),
+                          walked := s.store.walked && !(m.needWalk && m.rootOid), log := s.store.log },
                mem := some { m with cursor := some (.int s.prov.cur), firstDo := false,
                                     pc := afterInit { m with firstDo := false } s.prov },
                ghost := { s.ghost with seed := s.prov.cur, walkDue := true, base := s.prov.cur } }
@@ -185,24 +199,25 @@ theorem doAll_seed (s : St) (m : Mem) (hinv : Inv s) (hm : s.mem = some m) (hval
     simp only [LateOk, afterInit]
     split <;> simp [PC.late, hst]
   obtain ⟨m', h1, h2, h3, h4, h5, h6, h7, h8, h9, h10⟩ :=
-    finish_late P hP k _ _ hinv2 rfl hl hP0 (by omega)
+    finish_late P hP k _ _ hinv3 rfl hl hP0 (by omega)
   exact ⟨m', h1, h2, h3, h4, h5, h6, h7, h8, h9, h10⟩
 
-/-- `doAll` on an engine whose first do() finds a cursor the provider rejects: three effects (need_walk if no
-    marker; provider reset to the newest position; reset cursor persisted and need_walk set), nothing delivered -/
+/-- `doAll` on an engine whose first do() finds a cursor the provider rejects: four effects (need_walk if no
+    marker; provider reset to the newest position; stored walk marker deleted; reset cursor persisted and need_walk
+    set), nothing delivered -/
 theorem doAll_rejected (s : St) (m : Mem) (v : CVal) (hm : s.mem = some m) (hval : m.validated = true)
     (hidle : m.pc = .idle) (hst : m.stopping = false) (hfd : m.firstDo = true) (hc : m.cursor = some v)
     (hrej : s.prov.accept? v = none) (hne : some (CVal.int s.prov.latest) ≠ m.cursor) :
     doAll s =
       { s with prov := { s.prov with cur := s.prov.latest },
-               store := { s.store with cursor := some (.int s.prov.latest) },
+               store := { s.store with cursor := some (.int s.prov.latest), walked := s.store.walked && !m.rootOid },
                mem := some { m with cursor := some (.int s.prov.latest), needWalk := true, pc := .idle },
                ghost := { s.ghost with seed := s.prov.latest, walkDue := true } } := by
   have hvr : validateRoot s.prov s.store m = m := by simp [validateRoot, hval]
   have hs1 : apply s .callDo = { s with mem := some { m with pc := .firstInit } } := by
     simp [apply, hm, hidle, hst, hvr, hval]
-  have h8 : ∃ k, measure (apply s .callDo) = k + 4 := by
-    refine ⟨measure (apply s .callDo) - 4, ?_⟩
+  have h8 : ∃ k, measure (apply s .callDo) = k + 5 := by
+    refine ⟨measure (apply s .callDo) - 5, ?_⟩
     rw [hs1]
     simp only [measure]
     omega
@@ -234,6 +249,8 @@ theorem walkDone_step (s : St) (m : Mem) (hm : s.mem = some m) (hl : LateOk s m)
     | idle => simp [stepUp, hpc, hw, hd, hm, hn']
     | firstInit => simp [hpc, PC.late] at hlate
     | errReset => simp [hpc, PC.late] at hlate
+    | errForget => simp [hpc, PC.late] at hlate
+    | seedSave => simp [hpc, PC.late] at hlate
     | errSave => simp [hpc, PC.late] at hlate
     | walkItem k => cases k <;> simp [stepUp, hpc, hw, hd, hn', hst]
     | queueLoop r => cases r <;> simp [stepUp, hpc, hw, hd, hn', deliver]
